@@ -76,12 +76,14 @@ class PathExpression:
                 if op is TOP:
                     el = el.root
                 elif op is UP:
-                    if el.parent is not None:
-                        el = el.parent
-                        # list members are held by a semi-visible slot; the
-                        # path parent of a member is the list itself
-                        if _is_slot(el):
-                            el = el.parent
+                    parent = el.parent
+                    # list members are held by a semi-visible slot; the
+                    # path parent of a member is the list itself (none, for
+                    # a member of a slot that was removed from its list)
+                    if parent is not None and _is_slot(parent):
+                        parent = parent.parent
+                    if parent is not None:
+                        el = parent
                 elif op is HERE:
                     pass
                 elif op is NAME:
